@@ -21,6 +21,7 @@
 //   delkey              maps: remove the last field
 //   reenc               re-encode the head of the site with a longer-than-needed argument (same value)
 //   drop                the message is not delivered
+//   pshift pscale vswap vcopy / ushift uscale uswap     relational: two sites together (c04_rel.go)
 // Long arrays (more than c04MaxKids elements) are sampled at positions 0, 1 and last.
 
 package main
